@@ -258,6 +258,136 @@ from pyvc.contract import LemmaTask
 TASKS += [LemmaTask("OFFN-monotone-step", [_n >= 0, NCUR(_n) >= 0, OFFN(_n + 1) == OFFN(_n) + NCUR(_n)], z3.And(OFFN(_n) + NCUR(_n) <= OFFN(_n + 1), z3.Implies(OFFN(_n) >= 0, OFFN(_n + 1) >= 0)),
                     "step of the induction behind the monotonicity / non-negativity axioms of the column offsets (A-INDUCTION)")]
 
+# ---------------------------------------------------------------------------------------------------------------------
+# read_hvsr_object_from_file under contract for traditional and diffuse-field files: which columns of the loaded array become the curves, in which
+# order the peak search and the installation of the stored masks happen, and which stored values they use.  File access, json.loads, np.loadtxt
+# and the text of the lines are external / opaque (A-TEXT-ROUNDTRIP, A-JSON): the file is "some leading header lines, a JSON dictionary META in them,
+# and an array ARRAY".  The azimuthal branch (column grouping by the azimuth in the column titles: regular expression) stays bounded.
+NL_ = z3.Int("n_lines")
+ISHDR = z3.Function("line_starts_with_hash", I, B)
+NCOL = z3.Int("n_columns")
+ARRAYF = z3.Const("loaded_array", A2(R))
+MLO, MHI, MPROM = z3.Reals("stored_f_low stored_f_high stored_prominence")
+MVW, MVP = z3.Const("stored_valid_window_mask", AB), z3.Const("stored_valid_peak_mask", AB)
+
+
+class _Line(StrV):
+    def __init__(self, idx):
+        super().__init__("<line>")
+        self.startswith_term = lambda prefix, _i=idx: ISHDR(_i)
+
+
+def _m_open_r(ex, st, args, kw, node):
+    from pyvc.core import SeqV
+    f = sym_obj(ex, st, "File", {"name": args[0]}, owner="fresh")
+    return f
+
+
+def _m_readlines(ex, st, args, kw, node):
+    from pyvc.core import SeqV
+    return SeqV(NL_, lambda ex_, st_, i: _Line(i), owner="fresh", name="lines")
+
+
+def _meta_value(kind, kw):
+    items = {"processing_method": StrV(kind), "search_range_in_hz": Tup((MLO, MHI)),
+             "find_peaks_kwargs": NONE if kw == "None" else DictV({"prominence": MPROM})}
+    return items
+
+
+def _m_loads(kind, kw):
+    def f(ex, st, args, kw_, node):
+        items = _meta_value(kind, kw)
+        if kind == "traditional":
+            items["valid_window_boolean_mask"] = ex.alloc_arr(st, (NCOL - 3,), MVW, "bool", "fresh", tag="stored_vw")
+            items["valid_peak_boolean_mask"] = ex.alloc_arr(st, (NCOL - 3,), MVP, "bool", "fresh", tag="stored_vp")
+        d = DictV(items)
+        st.env["__meta"] = d
+        return d
+    return FuncV(f, "json.loads")
+
+
+def _m_loadtxt(ex, st, args, kw, node):
+    return ex.alloc_arr(st, (MW, NCOL), ARRAYF, "real", "fresh", tag="loaded")
+
+
+def _m_ctor(cls):
+    def f(ex, st, args, kw, node):
+        fr, a = ex.arr(st, args[0]), ex.arr(st, args[1])
+        fields = {"frequency": ex.alloc_arr(st, fr.shape, fr.data, "real", "fresh", tag="frequency"),
+                  "amplitude": ex.alloc_arr(st, a.shape, a.data, "real", "fresh", tag="amplitude"), "meta": kw.get("meta", DictV({})), "__searched": NONE}
+        if cls == "HvsrTraditional":
+            n = a.shape[0]
+            fields["valid_window_boolean_mask"] = ex.alloc_arr(st, (n,), z3.K(I, z3.BoolVal(True)), "bool", "fresh", tag="vw")
+            fields["valid_peak_boolean_mask"] = ex.alloc_arr(st, (n,), z3.K(I, z3.BoolVal(True)), "bool", "fresh", tag="vp")
+        return ex.alloc_obj(st, cls, fields, "fresh")
+    return FuncV(f, cls)
+
+
+def _m_search(ex, st, args, kw, node):
+    """update_peaks_bounded on the freshly built object (contract: C08): records the range and filters used; for a traditional object the masks afterwards are
+    whatever the search found (both masks = 'has a peak in the range'), i.e. unknown here"""
+    o = st.heap[args[0].oid]
+    o.fields["__searched"] = Tup((kw.get("search_range_in_hz", Tup((NONE, NONE))), kw.get("find_peaks_kwargs", NONE)))
+    if o.cls == "HvsrTraditional":
+        for nm in ("valid_window_boolean_mask", "valid_peak_boolean_mask"):
+            d = ex.arr(st, o.fields[nm])
+            o.fields[nm] = ex.alloc_arr(st, d.shape, ex.fresh("after_search_" + nm, AB), "bool", "fresh", tag=nm)
+    return NONE
+
+
+def _rd_inputs(ex, st):
+    st.env["fname"] = StrV("<fname>")
+    st.env["M"], st.env["NCOL"] = MW, NCOL
+    return [MW >= 1, NL_ >= 1, ISHDR(0)]
+
+
+def _searched_with(ex, st, a, k, n_):
+    got = st.heap[a[0].oid].fields["__searched"]
+    if not isinstance(got, Tup):
+        return z3.BoolVal(False)
+    rng, kwargs = got
+    return z3.And(ex.struct_eq(rng, a[1]), ex.struct_eq(kwargs, a[2]) if not (kwargs is NONE or a[2] is NONE) else z3.BoolVal(kwargs is a[2]))
+
+
+R_GHOST = {"LOADED": lambda i, j: z3.Select(z3.Select(ARRAYF, i), j), "META": FuncV(lambda ex, st, a, k, n_: st.env["__meta"].items[a[0].s], "META"),
+           "searched_with": FuncV(_searched_with, "searched_with"), "M": MW, "NCOL": NCOL,
+           "meta_is_loaded": FuncV(lambda ex, st, a, k, n_: z3.BoolVal(st.heap[a[0].oid].fields["meta"] is st.env["__meta"]), "meta_is_loaded"),
+           "has_key": FuncV(lambda ex, st, a, k, n_: z3.BoolVal(a[1].s in st.heap[a[0].oid].fields["meta"].items), "has_key")}
+for _kw in ("None", "dict"):
+    _RENV = dict(open=FuncV(_m_open_r, "open"), json=ModV("json", {"loads": _m_loads("traditional", _kw)}),
+                 np=ModV("np", dict(npm.NP.attrs, loadtxt=FuncV(_m_loadtxt, "np.loadtxt"))), HvsrTraditional=_m_ctor("HvsrTraditional"),
+                 HvsrAzimuthal=_m_ctor("HvsrAzimuthal"), HvsrDiffuseField=_m_ctor("HvsrDiffuseField"))
+    READ_T = Contract(
+        qual="hvsrpy.object_io.read_hvsr_object_from_file", params=["fname"], ghost=R_GHOST, make_inputs=_rd_inputs, sym_lists={"header_lines": "str"},
+        requires=["NCOL >= 3"],
+        ensures=["len(result.frequency) == M and forall(i, 0, M, result.frequency[i] == LOADED(i, 0))",
+                 "result.amplitude.shape[0] == NCOL - 3 and result.amplitude.shape[1] == M",
+                 "forall(k, 0, NCOL - 3, forall(i, 0, M, result.amplitude[k, i] == LOADED(i, 1 + k)))",
+                 "searched_with(result, META('search_range_in_hz'), META('find_peaks_kwargs'))",
+                 "len(result.valid_window_boolean_mask) == NCOL - 3 and forall(k, 0, NCOL - 3, result.valid_window_boolean_mask[k] == STORED_VW(k))",
+                 "len(result.valid_peak_boolean_mask) == NCOL - 3 and forall(k, 0, NCOL - 3, result.valid_peak_boolean_mask[k] == STORED_VP(k))",
+                 "meta_is_loaded(result) and not has_key(result, 'valid_window_boolean_mask') and not has_key(result, 'valid_peak_boolean_mask')"],
+        loops={0: ["len(header_lines) == _k0", "forall(t, 0, _k0, IS_HEADER(t))"]}, modifies=[],
+        notes="traditional file: column 0 the frequencies, columns 1..-3 the curves in order (the last two columns - derived - are not read back); the peak search runs "
+              "with the stored range and filters and only then the stored masks are installed, unchanged; the header's remaining entries become the object's meta")
+    READ_T.ghost.update(STORED_VW=lambda k: z3.Select(MVW, k), STORED_VP=lambda k: z3.Select(MVP, k), IS_HEADER=lambda t: ISHDR(t))
+    READ_T.ghost_state = ("__meta",)
+    TASKS.append(FunctionTask(READ_T, module_env=_RENV, registry={"File.readlines": FuncV(_m_readlines, "readlines"), "HvsrTraditional.update_peaks_bounded": FuncV(_m_search, "update_peaks_bounded")},
+                              label=f"hvsrpy.object_io.read_hvsr_object_from_file[traditional,kwargs={_kw}]",
+                              clauses=["the object read back has the stored curves, range, filters and masks"]))
+    _RENVD = dict(_RENV, json=ModV("json", {"loads": _m_loads("diffuse_field", _kw)}))
+    READ_D = Contract(
+        qual="hvsrpy.object_io.read_hvsr_object_from_file", params=["fname"], ghost=dict(R_GHOST, IS_HEADER=lambda t: ISHDR(t)), make_inputs=_rd_inputs, sym_lists={"header_lines": "str"},
+        requires=["NCOL == 2"],
+        ensures=["len(result.frequency) == M and forall(i, 0, M, result.frequency[i] == LOADED(i, 0))",
+                 "len(result.amplitude) == M and forall(i, 0, M, result.amplitude[i] == LOADED(i, 1))",
+                 "searched_with(result, META('search_range_in_hz'), META('find_peaks_kwargs'))", "meta_is_loaded(result)"],
+        loops={0: ["len(header_lines) == _k0", "forall(t, 0, _k0, IS_HEADER(t))"]}, modifies=[],
+        notes="diffuse-field file: frequencies and the curve; the peak search runs with the stored range and filters")
+    READ_D.ghost_state = ("__meta",)
+    TASKS.append(FunctionTask(READ_D, module_env=_RENVD, registry={"File.readlines": FuncV(_m_readlines, "readlines"), "HvsrDiffuseField.update_peaks_bounded": FuncV(_m_search, "update_peaks_bounded")},
+                              label=f"hvsrpy.object_io.read_hvsr_object_from_file[diffuse_field,kwargs={_kw}]", clauses=["the diffuse-field object read back has the stored curve"]))
+
 META = dict(
     level="other",
     explanation="structural obligations: the writer never rebinds its `hvsr` parameter and takes frequency / mean / std columns from it, deep-copies meta; the "
